@@ -27,6 +27,7 @@ import (
 	"syscall"
 	"time"
 
+	"golang.org/x/net/http2"
 	"mosn.io/api"
 	v2 "mosn.io/mosn/pkg/config/v2"
 	"mosn.io/mosn/pkg/metrics"
@@ -62,8 +63,14 @@ type levels struct {
 	Router level `json:"router"`
 }
 type hdrCase struct {
-	Lv  levels            `json:"lv"`
-	Hin map[string]string `json:"hin"`
+	Lv   levels            `json:"lv"`
+	Hin  map[string]string `json:"hin"`
+	Src  string            `json:"src"`  // value of the client's x-src header ("-": not sent), read by %request_header_x-src%
+	Rsrc string            `json:"rsrc"` // value of the upstream's x-rsrc header, read by %response_header_x-rsrc%
+}
+type pfcCase struct {
+	Route string `json:"route"`
+	Vhost string `json:"vhost"`
 }
 type pathCase struct {
 	Rule  string   `json:"rule"`
@@ -105,7 +112,9 @@ type actCase struct {
 	Fam string          `json:"fam"`
 	C   json.RawMessage `json:"c"`
 	RC  json.RawMessage `json:"rc"`
-	Rx  []struct {
+	// Proto is the listener/cluster variant the case goes through: "" or "h1" = HTTP/1 both sides, "h2" = HTTP/2 both sides
+	Proto string `json:"proto"`
+	Rx    []struct {
 		Rr      string `json:"rr"`
 		Pattern string `json:"pattern"`
 		Subst   string `json:"subst"`
@@ -396,17 +405,18 @@ type arrival struct {
 	Header http.Header
 }
 type recUp struct {
-	mu    sync.Mutex
-	byTok map[string][]arrival
-	Addr  string
-	srv   *http.Server
+	mu     sync.Mutex
+	byTok  map[string][]arrival
+	Addr   string // HTTP/1.1
+	AddrH2 string // HTTP/2 (cleartext, prior knowledge); responses there carry a trailer
+	srv    *http.Server
 }
 
 func newRecUp() *recUp {
 	ln, err := net.Listen("tcp", "127.0.0.1:0")
 	vh.Must(err, "listen")
 	u := &recUp{byTok: map[string][]arrival{}, Addr: ln.Addr().String()}
-	u.srv = &http.Server{Handler: http.HandlerFunc(func(w http.ResponseWriter, req *http.Request) {
+	handler := http.HandlerFunc(func(w http.ResponseWriter, req *http.Request) {
 		tok := req.Header.Get("X-Token")
 		u.mu.Lock()
 		u.byTok[tok] = append(u.byTok[tok], arrival{URI: req.RequestURI, Host: req.Host, Header: req.Header.Clone()})
@@ -418,12 +428,79 @@ func newRecUp() *recUp {
 		if strings.Contains(want, "b") {
 			w.Header().Set("x-b", "c")
 		}
+		if strings.Contains(want, "r") {
+			w.Header().Set("x-rsrc", "u")
+		}
 		w.Header().Set("X-Token", tok)
+		if req.ProtoMajor == 2 {
+			w.Header().Set("Trailer", "X-Tr")
+		}
 		w.WriteHeader(200)
 		w.Write([]byte(tok))
-	})}
+		if req.ProtoMajor == 2 {
+			w.Header().Set("X-Tr", "t")
+		}
+	})
+	u.srv = &http.Server{Handler: handler}
 	go u.srv.Serve(ln)
+	ln2, err := net.Listen("tcp", "127.0.0.1:0")
+	vh.Must(err, "listen h2")
+	u.AddrH2 = ln2.Addr().String()
+	h2s := &http2.Server{}
+	go func() {
+		for {
+			c, err := ln2.Accept()
+			if err != nil {
+				return
+			}
+			go func() {
+				h2s.ServeConn(c, &http2.ServeConnOpts{Handler: handler})
+				c.Close()
+			}()
+		}
+	}()
 	return u
+}
+
+// probeFilter is the scripted stream filter "c17probe": when the request asks for it (header x-pfc-probe) it copies what it
+// reads through the matched route - the route's and the virtual host's per_filter_config entry of its own name - into
+// request headers, where the recording upstream sees them.
+type probeFilter struct {
+	h api.StreamReceiverFilterHandler
+}
+
+func (f *probeFilter) OnDestroy()                                                {}
+func (f *probeFilter) SetReceiveFilterHandler(h api.StreamReceiverFilterHandler) { f.h = h }
+func (f *probeFilter) OnReceive(ctx context.Context, headers api.HeaderMap, buf api.IoBuffer, trailers api.HeaderMap) api.StreamFilterStatus {
+	if _, ok := headers.Get("x-pfc-probe"); !ok {
+		return api.StreamFilterContinue
+	}
+	show := func(m map[string]interface{}) string {
+		if v, ok := m["c17probe"]; ok {
+			return fmt.Sprint(v)
+		}
+		return "-"
+	}
+	rv, vv := "noroute", "noroute"
+	if r := f.h.Route(); r != nil && r.RouteRule() != nil {
+		rv = show(r.RouteRule().PerFilterConfig())
+		if v := r.RouteRule().VirtualHost(); v != nil {
+			vv = show(v.PerFilterConfig())
+		}
+	}
+	headers.Set("x-pfc-route", rv)
+	headers.Set("x-pfc-vhost", vv)
+	return api.StreamFilterContinue
+}
+
+type probeFactory struct{}
+
+func (probeFactory) CreateFilterChain(ctx context.Context, callbacks api.StreamFilterChainFactoryCallbacks) {
+	callbacks.AddStreamReceiverFilter(&probeFilter{}, api.AfterRoute)
+}
+
+func init() {
+	api.RegisterStream("c17probe", func(map[string]interface{}) (api.StreamFilterChainFactory, error) { return probeFactory{}, nil })
 }
 func (u *recUp) take(tok string) []arrival {
 	u.mu.Lock()
@@ -441,6 +518,9 @@ func hdrObs(h http.Header) map[string]string {
 			out[k] = "-"
 		} else {
 			out[k] = strings.Join(vs, ",")
+			if out[k] == "-" { // "-" spells "absent" in the traces
+				out[k] = "(dash)"
+			}
 		}
 	}
 	return out
@@ -453,12 +533,17 @@ func runAct(casesPath, tracePath string, shard, shards int) {
 	defer os.RemoveAll(tmp)
 	up := newRecUp()
 	laddr := listenAddr()
-	clusters := e2e.BuildClusters([]e2e.ClusterSpec{{Name: "up", Hosts: []string{up.Addr}}})
+	laddr2 := listenAddr2(laddr)
+	clusters := e2e.BuildClusters([]e2e.ClusterSpec{{Name: "up", Hosts: []string{up.Addr}}, {Name: "uph2", Hosts: []string{up.AddrH2}}})
+	probe := []v2.Filter{{Type: "c17probe", Config: map[string]interface{}{}}}
 	lst := e2e.BuildListener(e2e.ListenerSpec{Name: "c17", Addr: laddr, Downstream: "Http1", Upstream: "Http1",
-		Routes: []e2e.RouteSpec{{Prefix: "/", Cluster: "up"}}})
-	m := e2e.StartMosn(e2e.BuildConfig([]v2.Listener{lst}, clusters, e2e.ScratchLog(tmp)))
+		Routes: []e2e.RouteSpec{{Prefix: "/", Cluster: "up"}}, StreamFilters: probe})
+	lst2 := e2e.BuildListener(e2e.ListenerSpec{Name: "c17h2", Addr: laddr2, Downstream: "Http2", Upstream: "Http2",
+		Routes: []e2e.RouteSpec{{Prefix: "/", Cluster: "uph2"}}, StreamFilters: probe})
+	m := e2e.StartMosn(e2e.BuildConfig([]v2.Listener{lst, lst2}, clusters, e2e.ScratchLog(tmp)))
 	defer m.Close()
 	vh.Must(e2e.WaitListen(laddr, 8*time.Second), "mosn listener")
+	vh.Must(e2e.WaitListen(laddr2, 8*time.Second), "mosn h2 listener")
 	tr := vh.NewTrace(tracePath)
 	defer tr.Close()
 
@@ -478,11 +563,28 @@ func runAct(casesPath, tracePath string, shard, shards int) {
 	seq := 0
 	maxGap := startWatchdog()
 	// one request/response on the kept-alive downstream connection; a connection the proxy closed is replaced once
+	proto := "h1" // variant of the case at hand
 	do := func(uri string, hdr map[string]string) (string, e2e.Outcome) {
 		for try := 0; ; try++ {
 			seq++
 			tok := fmt.Sprintf("a%d-%d", shard, seq)
 			hdr["X-Token"] = tok
+			if proto == "h2" { // the raw HTTP/2 client speaks on stream 1 of its own connection
+				delete(hdr, "Host")
+				atomic.StoreInt64(maxGap, 0)
+				c2, err := e2e.DialH2(laddr2)
+				vh.Must(err, "dial proxy h2")
+				var o e2e.Outcome
+				if err = c2.Send("GET", uri, hdr, ""); err == nil {
+					o = c2.Recv(20*time.Second, 0)
+				}
+				c2.Close()
+				if (err != nil || o.Kind != "response") && try < 3 && atomic.LoadInt64(maxGap) > 1500 {
+					up.take(tok)
+					continue
+				}
+				return tok, o
+			}
 			if cl == nil {
 				c, err := e2e.DialHTTP(laddr)
 				vh.Must(err, "dial proxy")
@@ -516,7 +618,16 @@ func runAct(casesPath, tracePath string, shard, shards int) {
 		r := v2.Router{}
 		r.Match = v2.RouterMatch{Prefix: "/"}
 		r.Route = v2.RouteAction{RouterActionConfig: v2.RouterActionConfig{ClusterName: "up"}}
+		if proto == "h2" {
+			r.Route.ClusterName = "uph2"
+		}
 		return r
+	}
+	setRouters := func(rc *v2.RouterConfiguration) {
+		if proto == "h2" {
+			rc.RouterConfigName = "c17h2_router"
+		}
+		setRouters(rc)
 	}
 	idx, n := 0, 0
 	err := vh.ReadCases(casesPath, func(raw json.RawMessage) error {
@@ -543,7 +654,33 @@ func runAct(casesPath, tracePath string, shard, shards int) {
 			return nil
 		}
 		n++
+		proto = "h1"
+		if ac.Proto == "h2" {
+			proto = "h2"
+		}
 		switch ac.Fam {
+		case "pfc":
+			var c pfcCase
+			if err := json.Unmarshal(ac.C, &c); err != nil {
+				return err
+			}
+			r := upRoute()
+			v := v2.VirtualHost{}
+			if c.Route != "-" {
+				r.PerFilterConfig = map[string]interface{}{"c17probe": c.Route, "other": "x"}
+			}
+			if c.Vhost != "-" {
+				v.PerFilterConfig = map[string]interface{}{"c17probe": c.Vhost}
+			}
+			v.Routers = []v2.Router{r}
+			setRouters(routerConfig(v, level{}, level{}))
+			tok, o := do("/a/x", map[string]string{"Host": "h.local", "x-pfc-probe": "1"})
+			arr := up.take(tok)
+			ev := vh.Ev{"ev": "pfc", "c": ac.C, "n": len(arr), "status": o.Status, "kind": o.Kind, "proto": proto, "route": "", "vhost": ""}
+			if len(arr) > 0 {
+				ev["route"], ev["vhost"] = arr[0].Header.Get("X-Pfc-Route"), arr[0].Header.Get("X-Pfc-Vhost")
+			}
+			tr.Emit(ev)
 		case "hdr":
 			var c, rc hdrCase
 			if err := json.Unmarshal(ac.C, &c); err != nil {
@@ -572,10 +709,16 @@ func runAct(casesPath, tracePath string, shard, shards int) {
 			if rc.Hin["x-b"] != "-" {
 				want += "b"
 			}
+			if rc.Rsrc != "-" && rc.Rsrc != "" {
+				want += "r"
+			}
 			hdr["X-Want"] = want
+			if c.Src != "-" && c.Src != "" {
+				hdr["x-src"] = c.Src
+			}
 			tok, o := do("/a/x", hdr)
 			arr := up.take(tok)
-			ev := vh.Ev{"ev": "hdr", "c": ac.C, "rc": ac.RC, "n": len(arr), "status": o.Status, "kind": o.Kind,
+			ev := vh.Ev{"ev": "hdr", "c": ac.C, "rc": ac.RC, "n": len(arr), "status": o.Status, "kind": o.Kind, "proto": proto,
 				"up": map[string]string{"x-a": "-", "x-b": "-"}, "down": map[string]string{"x-a": "-", "x-b": "-"}}
 			if len(arr) > 0 {
 				ev["up"] = hdrObs(arr[0].Header)
@@ -623,7 +766,7 @@ func runAct(casesPath, tracePath string, shard, shards int) {
 			}
 			tok, o := do(uri, hdr)
 			arr := up.take(tok)
-			ev := vh.Ev{"ev": "path", "c": ac.C, "n": len(arr), "status": o.Status, "kind": o.Kind,
+			ev := vh.Ev{"ev": "path", "c": ac.C, "n": len(arr), "status": o.Status, "kind": o.Kind, "proto": proto,
 				"path": []string{}, "query": "", "host": "", "orig": []string{}}
 			if len(arr) > 0 {
 				p, q := arr[0].URI, ""
@@ -778,6 +921,9 @@ func newScriptUp(name string, reg *sReg) (addr string, stop func()) {
 			if strings.Contains(want, "b") {
 				w.Header().Set("x-b", "c")
 			}
+			if strings.Contains(want, "r") {
+				w.Header().Set("x-rsrc", "u")
+			}
 			w.Header().Set("X-Token", tok)
 			w.Header().Set("X-Upstream", name)
 			w.WriteHeader(code)
@@ -831,7 +977,7 @@ type retryCase struct {
 
 const plainAct = `{"lv":{"route":{"add":[],"rm":[]},"vhost":{"add":[],"rm":[]},"router":{"add":[],"rm":[]}},"hin":{"x-a":"-","x-b":"-"},` +
 	`"rlv":{"route":{"add":[],"rm":[]},"vhost":{"add":[],"rm":[]},"router":{"add":[],"rm":[]}},"rhin":{"x-a":"-","x-b":"-"},` +
-	`"pr":[],"rr":"none","path":["/","a","/","x"]}`
+	`"pr":[],"rr":"none","path":["/","a","/","x"],"src":"-","rsrc":"-"}`
 
 // retryAct: the actions the route of a retry run carries (shapes of RouteAction.tla) and the original request.
 type retryAct struct {
@@ -844,6 +990,8 @@ type retryAct struct {
 	Rxp  string            `json:"rxp"`
 	Rxs  string            `json:"rxs"`
 	Path []string          `json:"path"`
+	Src  string            `json:"src"`
+	Rsrc string            `json:"rsrc"`
 }
 
 func u64(x interface{}) uint64 {
@@ -1079,7 +1227,13 @@ func runRetry(casesPath, tracePath, resPath string, shard, shards int) {
 				want += k[2:]
 			}
 		}
+		if act.Rsrc != "-" && act.Rsrc != "" {
+			want += "r"
+		}
 		reqHdr["X-Want"] = want
+		if act.Src != "-" && act.Src != "" {
+			reqHdr["x-src"] = act.Src
+		}
 		// behaviours by arrival: attempts that never reach a host (refused, overflow) consume none
 		bs := []string{}
 		for i := 0; i < 12; i++ {
@@ -1238,6 +1392,22 @@ func listenAddr() string {
 		if err == nil {
 			l.Close()
 			return fmt.Sprintf("127.0.0.1:%d", port)
+		}
+	}
+	return e2e.FreeAddr()
+}
+
+// listenAddr2 picks a second listener address the same way, different from the first.
+func listenAddr2(first string) string {
+	for i := 200; i < 400; i++ {
+		port := 12000 + (os.Getpid()*7+i*1013)%20000
+		a := fmt.Sprintf("127.0.0.1:%d", port)
+		if a == first {
+			continue
+		}
+		if l, err := net.Listen("tcp", a); err == nil {
+			l.Close()
+			return a
 		}
 	}
 	return e2e.FreeAddr()
